@@ -40,6 +40,8 @@ func init() {
 			}
 			c.Clause("C17-D5")
 			ruleServerInfo(c)
+			ruleStartTimeOnlyWhenUnset(c)
+			ruleMethodDecodedAsJSON(c)
 		},
 	})
 	register(&Def{
@@ -54,6 +56,7 @@ func init() {
 			ruleBridgeGate(c)
 			c.Clause("C18-D2/D3/D4")
 			ruleBridgeIDs(c)
+			ruleParseRequestsNormalisesID(c)
 			ruleConstantFormats(c)
 			c.Clause("C18-D5")
 			ruleAtomicCounter(c, "client", c.M.CNextID)
@@ -75,6 +78,7 @@ func init() {
 			c.Clause("C19-D4")
 			ruleBodiesClosed(c)
 			ruleRecvClosesBody(c)
+			ruleGetterAlwaysAnswers(c)
 			c.Clause("C19-D5")
 			ruleGo(c, pkgGo(c, "jhttp"), 2, "Send, Close")
 		},
@@ -90,6 +94,7 @@ func init() {
 			c.Clause("C20-D1..D6")
 			ruleLoop(c)
 			ruleLoopSuccessReachesFinish(c)
+			ruleAcceptFailureEndsLoop(c)
 			c.Clause("C20-D4")
 			ruleGo(c, pkgGo(c, "server"), 3, "netAccepter watcher, per-connection goroutine, stop watcher")
 			_ = ir.Name
